@@ -106,6 +106,7 @@ class Cfg:
         self.sort_has_sort = False  # the last hit's own sort array holds the string "sort"
         self.aggs = False
         self.es6 = False
+        self.fat_scale = 1  # 1: 8-25 KiB follow the last sort key; 12 or 40: a few hundred KiB up to about a MiB (a tail-only search for the cursor misses it)
         self.fat_tail = None  # "explanation" | "aggs" | "inner": more than 8 KiB of response follow the last hit's sort key (no "sort" token in them)
         self.__dict__.update(kw)
 
@@ -181,10 +182,10 @@ def gen_hit(rng, cfg, i, last=False, nested=False, with_sort=True):
     if last and not nested and cfg.fat_tail == "explanation":
         # explain=true: Elasticsearch writes _explanation after sort
         h["_explanation"] = {"value": 1.0, "description": "sum of:", "details": [
-            {"value": rng.choice([0.5, 0.25, 1.5]), "description": f"weight(message:w{j} in {j}) [PerFieldSimilarity], result of:", "details": []} for j in range(rng.randint(110, 160))]}
+            {"value": rng.choice([0.5, 0.25, 1.5]), "description": f"weight(message:w{j} in {j}) [PerFieldSimilarity], result of:", "details": []} for j in range(rng.randint(110, 160) * cfg.fat_scale)]}
     if last and not nested and cfg.fat_tail == "inner":
-        h["inner_hits"] = {"comments": {"hits": {"total": gen_total(rng, cfg, 90), "max_score": None, "hits": [
-            {"_index": "idx", "_id": str(j), "_nested": {"field": "comments", "offset": j}, "_score": 1.0, "_source": {"author": f"user-{j}", "text": "lorem ipsum dolor sit amet " * 3}} for j in range(90)]}}}
+        h["inner_hits"] = {"comments": {"hits": {"total": gen_total(rng, cfg, 90 * cfg.fat_scale), "max_score": None, "hits": [
+            {"_index": "idx", "_id": str(j), "_nested": {"field": "comments", "offset": j}, "_score": 1.0, "_source": {"author": f"user-{j}", "text": "lorem ipsum dolor sit amet " * 3}} for j in range(90 * cfg.fat_scale)]}}}
     if not nested:
         if cfg.mq_sort and (last or rng.random() < 0.3):
             h["matched_queries"] = rng.choice([["sort"], ["q1", "sort"], ["sort", "q2"]])
@@ -260,7 +261,7 @@ def gen_search_page(rng, cfg, nhits, total, pit_id=None, scroll_id=None, sorted_
     if cfg.fat_tail == "aggs":
         # a terms aggregation with a few hundred buckets: Elasticsearch writes aggregations after the hits
         d.setdefault("aggregations", {})["by_user_all"] = {"doc_count_error_upper_bound": 0, "sum_other_doc_count": 0,
-                                                          "buckets": [{"key": f"user-{j:05d}", "doc_count": rng.randint(1, 999)} for j in range(rng.randint(300, 420))]}
+                                                          "buckets": [{"key": f"user-{j:05d}", "doc_count": rng.randint(1, 999)} for j in range(rng.randint(300, 420) * cfg.fat_scale)]}
     return d
 
 
